@@ -19,6 +19,7 @@ CONFIGS = {
     "set-set-third": dict(modes=("set", "set"), adversary=("third",)),
     "solo-alloc": dict(modes=("allocate",), nmsg=(1,)),
     "set-set-internal-error": dict(modes=("set", "set"), adversary=("badhex",)),
+    "set-set-unwelcome-later": dict(modes=("set", "set"), adversary=("unwelcome-later",), max_opens=4),
     "set-set-failed-negotiation": dict(modes=("set", "set"), adversary=("failopen",), max_opens=4),
     "alloc-set-failed-negotiation": dict(modes=("allocate", "set"), adversary=("failopen",), max_opens=4),
     "set-set-deferred-internal-error": dict(modes=("set", "set"), delegated=(False, False), adversary=("badhex",)),
